@@ -69,6 +69,8 @@ add("mw_3c_g", ["C06"], "t", progs=[P("L", mwt(1), "U"), P("G1", "L", mwt(2), "U
 add("mw_uw2_g", ["C06"], "q", progs=[P("L", mwt(1), "UW"), P("G1", "L", mwt(3), "U"), P("G2", "L", "set11", "set21", "U")], NV=2, conds=CS)
 # (too large for breadth-first search: behaviours from TLC's simulation mode, 4 workers x 150)
 add("mw_hint4_g", ["C06"], "t", progs=[P("L", mwt(1), "U"), P("G1", "L", "U"), P("G1", "R", "RU"), P("G1", "L", "set11", mwt(3), "U")], NV=2, conds=CS, _sim=(150, 600))
+# a waiter that is woken, finds its condition false again and waits a second time, with a waiter on another condition queued behind it
+add("mw_rewait_g", ["C06"], "q", progs=[P("L", mwt(1), "U"), P("G1", "L", mwt(3), "U"), P("G2", "L", "set11", "U", "L", "set10", "set21", "U")], NV=2, conds=CS)
 add("mw_rdall_g", ["C06"], "q", progs=[P("L", mwt(1), "U"), P("G1", "R", "RU", "R", "RU"), P("G1", "L", "set11", "U")], NV=1, conds=C1)
 # ---- nsync_wait_n on a cv (C04 C11 C13) ----
 add("wn_in", ["C04", "C11", "C13"], "q", progs=[P("L", wnl(v=1, dl=1), "U"), P("L", "set11", "S", "U")], NV=1, MaxNow=1)
@@ -77,6 +79,9 @@ add("wn_nodl", ["C04", "C11"], "q", progs=[P("L", wnl(v=1), "U"), P("L", "set11"
 # contention on the cv's spinlock while registering: a signaller that does not hold the mutex / two reader-mode waiters
 add("wn_spin", ["C04", "C11"], "q", progs=[P("L", wnl(v=1, dl=1), "U"), P("S")], NV=1, MaxNow=1)
 add("cv_2rd", ["C04", "C01"], "q", progs=[P("R", cvw(dl=1), "RU"), P("R", cvw(dl=1), "RU")], NV=1, MaxNow=1)
+# nsync_cv_signal wakes a reader-mode waiter and, with it, the nsync_wait_n waiter queued behind it, whose deadline can end the call at any point
+add("wn_rd_g", ["C13", "C04", "C11"], "q", progs=[P("R", cvw(), "RU"), P("G1", "L", op("waitn", dl=1), "U"), P("G2", "S")], NV=1, MaxNow=1)
+add("wn_rdl_g", ["C13", "C04", "C11"], "t", progs=[P("R", cvw(), "RU"), P("G1", "L", wnl(v=1, dl=1), "U"), P("G2", "S")], NV=1, MaxNow=1)
 add("wn_mixed", ["C04", "C11", "C13"], "t", progs=[P("L", wnl(v=1, dl=1), "U"), P("L", cvl(v=1), "U"), P("L", "set11", "U", "B")], NV=1, MaxNow=1)
 # ---- conditional critical sections (C06 C05 C01) ----
 add("mw_1", ["C06"], "q", progs=[P("L", mwt(1), "U"), P("L", "set11", "U")], NV=1, conds=C1)
